@@ -77,6 +77,9 @@ def run_history(case):
                     os.replace(path + ".replacement", path)
                     os.utime(path, ns=(st.st_atime_ns, st.st_mtime_ns))
                     continue
+                if len(op) > 4 and op[4] == "symlink" and not os.path.lexists(path):
+                    # the template is a symbolic link to the real file; later writes go through the link, in place
+                    os.symlink(os.path.basename(path) + ".target", path)
                 with open(path, "w", encoding="utf-8") as f:
                     f.write(J.jinja_source(op[2], world))
                 t = J.STAMP_BASE + op[3]
